@@ -215,7 +215,8 @@ impl TheoreticalIsotopicPattern {
     /**Truncate the peak list after the cumulative intensity meets or exceeds `threshold` */
     pub fn truncate_after(mut self, threshold: f64) -> TheoreticalIsotopicPattern {
         let mut total = 0.0;
-        let mut stop_index = 0;
+        // keep every peak when the threshold is never reached
+        let mut stop_index = self.peaks.len().saturating_sub(1);
         for (i, p) in self.peaks.iter().enumerate() {
             total += p.intensity;
             if total >= threshold {
@@ -247,7 +248,8 @@ impl TheoreticalIsotopicPattern {
         shift: f64,
     ) -> Self {
         let mut total = 0.0;
-        let mut stop_index = 0;
+        // keep every peak when the threshold is never reached
+        let mut stop_index = self.peaks.len().saturating_sub(1);
         for (i, p) in self.peaks.iter().enumerate() {
             total += p.intensity;
             if total >= truncate_threshold {
